@@ -559,7 +559,7 @@ func Main(prop string, o hx.Opts) {
 		}
 		Show(prop, string(b), lang, optStr, simp)
 	case "words":
-		Words(o.Seed, o.N)
+		Words(o.Seed, o.N, o.Tier != "thorough")
 	case "queue":
 		Queue(o.Seed, o.N)
 	case "opts":
